@@ -1473,6 +1473,47 @@ func runC15(cfg config) *hx.Report {
 	for _, e := range extreme {
 		add(e)
 	}
+	// --- sender: resume reports whose fields are each plausible but do not fit together (oracle
+	// only; generated LAST so that every script above stays what it was): a file of 13-38 chunks;
+	// bitmap shorter / longer than the chunk count needs, chunk count off by one, verification
+	// chunk at or beyond the end.  (The scripted peer closes its streams right after the last
+	// record, so whether the sender gets far enough to use a bad report before it fails on the
+	// ended control stream is a race: a change that mishandles such a report is reported on
+	// some runs only.)
+	for t := 0; t < 6*scale; t++ {
+		items := []c15Item{{Path: "big.bin", Size: int64(100 + rng.Intn(200)), ID: fmt.Sprintf("%016x", rng.U64())}}
+		dir, m, keys := mkSrc(items, 2000+t)
+		mj, _ := json.Marshal(m)
+		var fi manifest.FileItem
+		for _, it := range m.Items {
+			if !it.IsDir {
+				fi = it
+			}
+		}
+		total := uint32((fi.Size + 7) / 8)
+		need := int((total + 7) / 8)
+		for _, v := range []struct {
+			db   int
+			dt   int
+			last uint32
+		}{{-1, 0, 0}, {-need + 1, 0, total - 1}, {-need + 1, 0, 0}, {1, 0, 0}, {0, 1, total}, {0, -1, 0}, {0, 0, total + 5}, {0, 0, 0xffffffff}, {-1, -8, 1}, {0, 0, total - 1}} {
+			if need+v.db < 0 {
+				continue
+			}
+			bm := make([]byte, need+v.db)
+			for i := range bm {
+				bm[i] = byte(rng.Intn(256))
+			}
+			if len(bm) == need && total%8 != 0 {
+				bm[need-1] &= byte(1<<(total%8) - 1) // no bit beyond the chunk count
+			}
+			recs := []c15Rec{
+				{"FileResumeInfo", c15Enc(transfer.FileResumeInfo{FileID: fi.ID, StreamID: keys[0], TotalChunks: uint32(int(total) + v.dt), Bitmap: bm, LastVerifiedChunk: v.last})},
+				{"FileDone", c15Enc(transfer.FileDone{StreamID: keys[0], OK: true})},
+			}
+			add(c15Case{Kind: "send-fuzz", Tag: "ack:resume-report-inconsistent", Resume: true, Items: items, SrcDir: dir, Manifest: mj, Ctl: c15Cat(recs), Streams: 1 + rng.Intn(3)})
+		}
+	}
 
 	// ---- run them ----
 	results, crashes := c15Children(cfg, eps)
